@@ -375,6 +375,14 @@ func main() {
 	time.Local = time.UTC
 	os.Setenv("TZ", "UTC")
 	dateutil.SetDelta(0)
+	if j := os.Getenv("C19_CONC_CHILD"); j != "" {
+		var job concJob
+		if err := json.Unmarshal([]byte(j), &job); err != nil {
+			os.Exit(2)
+		}
+		concChild(job)
+		return
+	}
 	if h := os.Getenv("C19_HIST_CHILD"); h != "" {
 		var seq []hcall
 		if err := json.Unmarshal([]byte(h), &seq); err != nil {
@@ -396,6 +404,7 @@ func main() {
 		"non-trivial = instant inside the century; distinct = distinct instants. " +
 		"D: histories — seeded random sequences of calls mixing every public helper (and a shared DateFormat, and the clock-reading variants) over a pool of instants " +
 		"(same second, adjacent seconds, same minute/day, far apart; interleaved, repeated) plus all ordered pairs of helpers on two instants; each answer vs the time package and vs the model. " +
+		"E: 12-16 goroutines call every public helper on their own instants (two shared) for a fixed time, every answer vs the value precomputed from the time package; run in a child process (crash = finding), under -race in the thorough tier. " +
 		"C: patterns over the letters ymdHMSs with random literal separators (ASCII, digits, non-ASCII), full and partial, x instants; " +
 		"non-trivial = pattern with at least one field letter; distinct = distinct (pattern, instant)."
 
@@ -797,6 +806,17 @@ func main() {
 		}
 	}
 
+	// ------------------------------------------------------------ E: concurrent calls (child process, see conc.go)
+	if !replayMode {
+		rounds, gor, ms := 2, []int{12, 16}, 450
+		if env.Thorough {
+			rounds, gor, ms = 4, []int{8, 12, 16, 16}, 2500
+		}
+		for k := 0; k < rounds; k++ {
+			concStage(rep, concJob{Seed: env.Seed*100 + uint64(k), Goroutines: gor[k], Millis: ms}, "random")
+		}
+	}
+
 	// ------------------------------------------------------------ replay mode
 	for _, c := range replayCases {
 		switch c["op"] {
@@ -808,6 +828,14 @@ func main() {
 			checkMalformed(c["pattern"].(string), c["text"].(string))
 		case "Y":
 			checkYmd(c["s"].(string), "replay")
+		case "E":
+			job := concJob{Seed: uint64(c["seed"].(float64)), Goroutines: int(c["goroutines"].(float64)), Millis: 1000}
+			if raw, err := json.Marshal(c["instants"]); err == nil {
+				json.Unmarshal(raw, &job.Instants)
+			}
+			for k := 0; k < 3; k++ {
+				concStage(rep, job, "replay")
+			}
 		case "S":
 			var seq []hcall
 			if raw, err := json.Marshal(c["sequence"]); err == nil {
